@@ -35,8 +35,8 @@ What is proved, for ALL programs (any `Node` tree, typed or not), every package 
 * `annot_iff_var`, `annot_iff_ret`, `annot_iff_targs` (every program): a type annotation of variable `v` /
   return-type annotation of `f` / explicit type-argument list of a call of `f` is printed iff the program has
   such a declaration carrying a type (`var_type` / `ret_type` not `None`) / such a call with
-  `can_infer_type_args = False` and type arguments; `annot_var_text`, `annot_ret_text` (`condOK`): what is
-  printed is the declared type.
+  `can_infer_type_args = False` and type arguments; `annot_var_text`, `annot_ret_text`, `annot_targs_text`
+  (`condOK`): what is printed is the NAME (`typeName`) of the declared type / of the carried type arguments.
 * `literals_ops_present` (`condOK`): every piece a visited node calls for — in particular every literal and
   operator — is in the doc and its text is a part of the emitted text; `literals_ops_tags` (every program);
   `literal_piece_iff`: conversely every literal piece is a literal of the program.
@@ -163,6 +163,20 @@ theorem annot_iff_targs (package : Option String) (p : Program) (f : String) :
     exact ⟨args, recv, targs, rc, hm, hne⟩
   · rintro ⟨args, recv, targs, rc, hm, hne⟩
     exact ⟨_, hm, _, (targs_own f _ _).mpr ⟨args, recv, targs, rc, rfl, hne, rfl⟩⟩
+
+/-- …and what is printed is the list of the NAMES of the type arguments the call carries (`condOK p`): an
+    overwritten type argument of a call is printed as overwritten -/
+theorem annot_targs_text (package : Option String) (p : Program) (h : condOK p = true) (f x : String) :
+    (Tag.targs f, x) ∈ kotlinDoc package p ↔
+      ∃ args recv targs rc, Node.call f args recv targs false rc ∈ printedL p.decls ∧ targs ≠ [] ∧
+        x = "<" ++ ",".intercalate (targs.map typeName) ++ ">" := by
+  rw [piece_in_doc_iff package p h _ (by simp)]
+  constructor
+  · rintro ⟨m, hm, hx⟩
+    obtain ⟨args, recv, targs, rc, rfl, hne, hxt⟩ := (targs_own f x m).mp hx
+    exact ⟨args, recv, targs, rc, hm, hne, hxt⟩
+  · rintro ⟨args, recv, targs, rc, hm, hne, hxt⟩
+    exact ⟨_, hm, (targs_own f _ _).mpr ⟨args, recv, targs, rc, rfl, hne, hxt⟩⟩
 
 /-- every piece a printed node calls for — in particular every literal and every operator of the
     program — is in the doc, and its text is a part of the emitted text (`condOK p`) -/
@@ -300,6 +314,11 @@ example : declTags (kotlinDoc (some "src.pkg") demo) = inventory demo := doc_inv
 example : obs true (kotlinDoc (some "src.pkg") demo) = semProgram demo := doc_pieces_partial _ _ (by decide +kernel)
 example : (Tag.retAnnot "h", ": Int") ∉ semProgram demo ∧ (Tag.retAnnot "g", ": Int") ∈ semProgram demo ∧
     (Tag.targs "id", "<Int>") ∈ semProgram demo ∧ (Tag.op, "<") ∈ semProgram demo := by decide +kernel
+
+/-- `annot_targs_text` on the demo: the hypotheses hold and the printed `<Int>` is traced back to a call of `id` -/
+example : ∃ args recv targs rc, Node.call "id" args recv targs false rc ∈ printedL demo.decls ∧ targs ≠ [] ∧
+    "<Int>" = "<" ++ ",".intercalate (targs.map typeName) ++ ">" :=
+  (annot_targs_text (some "src.pkg") demo (by decide +kernel) "id" "<Int>").mp (by decide +kernel)
 
 example : Balanced (flatten (kotlinDoc (some "src.pkg") demo)) := by decide +kernel
 
